@@ -23,7 +23,8 @@ Import ListNotations.
 RULE = ("domain systems: every sequence of <= 5 (quick) / <= 6 (thorough) molecules over the species A (one residue), "
         "B (two different residues), C (residues P,Q,P), D (two identical consecutive residues) and the unloaded solvent W, "
         "each with every permutation of every sub-list of the four topologies (65 loading orders, absent species are refused "
-        "and the session goes on; quick tier at length 5: 12 full permutations + 6 shorter orders drawn per system); random longer domain systems over random species with disjoint signatures; wild systems "
+        "and the session goes on; quick tier at length 5: 12 full permutations + 6 shorter orders drawn per system) plus 3 orders "
+        "with near-miss topologies (one atom name changed: refused, state preserved); random longer domain systems over random species with disjoint signatures; wild systems "
         "(shared signatures, same name+size with other atom names, truncated instances, topologies that merge residues) for K only. "
         "A case is one (file, loading order); non-trivial = distinct and at least one topology accepted or refused after a scan.")
 
